@@ -7,7 +7,7 @@ from mc import env  # noqa: F401
 from mc import kernel
 from mc.canon import canon
 from mc.guard import budget, BudgetExceeded
-from mc.report import Violation
+from mc.report import Violation, Lookalike
 
 import desper
 
@@ -27,7 +27,7 @@ RULE = ('E1 breadth-first search to fixpoint over dispatch / disable / enable '
 EVENTS = ('e', 'f')
 
 
-class Boom(Exception):
+class Boom(Lookalike):
     """Stands for Quit / SwitchWorld raised from a callback by design."""
 
 
